@@ -11,7 +11,7 @@ import (
 // C02 - the backend sees only valid requests in a protocol, codec and
 // compression it accepts.
 
-const ruleC02 = "rapid draws valid client requests (6 forms) against every non-empty target-protocol subset x 8 codec lists x 5 compression lists, with accept-compression lists, timeouts and per-frame compressed flags. Oracle: strict per-protocol validator of the *http.Request and body bytes the service handler received (request line, HTTP version, content-type, control-header grammar, envelope flags/lengths, declared compression vs bytes, payload decodes) plus the negotiation rules (member of the configured set; the client's own choice kept when acceptable) and contradiction check on left-over control headers. Non-trivial = handler invoked with protocol, codec or compression different from the client's; distinct by hash(config, client triple, frame flags, backend triple)."
+const ruleC02 = "rapid draws valid client requests (6 forms) against every non-empty target-protocol subset x 8 codec lists x 5 compression lists, with accept-compression lists, timeouts, per-frame compressed flags, a drawn GET URL limit (a GET toward a Connect backend may have to become a POST) and, for HTTP/1.1 clients, a TE header of their own. Oracle: strict per-protocol validator of the *http.Request and body bytes the service handler received (request line, HTTP version, content-type, control-header grammar, envelope flags/lengths, declared compression vs bytes, payload decodes) plus the negotiation rules (member of the configured set; the client's own choice kept when acceptable) and contradiction check on left-over control headers. Non-trivial = handler invoked with protocol, codec or compression different from the client's; distinct by hash(config, client triple, frame flags, backend triple)."
 
 func init() { registerScenarioProp("C02", ruleC02, checkC02) }
 
@@ -21,6 +21,11 @@ func TestC02(t *testing.T) {
 		sc := genScenario(t, o)
 		if rapid.IntRange(0, 2).Draw(t, "with_timeout") == 0 {
 			sc.Client.Timeout = genValidTimeout(t, sc.Client.Form)
+		}
+		if sc.Client.Form != FormGRPC && !sc.Client.HTTP2 && rapid.IntRange(0, 7).Draw(t, "with_te") == 0 {
+			// an HTTP/1.1 client that states which transfer codings it takes (libwww and curl --tr-encoding do);
+			// whatever it says, a gRPC backend must be sent exactly "te: trailers"
+			sc.Client.Headers = append(sc.Client.Headers, KV{"Te", rapid.SampledFrom([]string{"deflate", "deflate,gzip;q=0.3", "trailers, deflate", "gzip", "trailers"}).Draw(t, "te")})
 		}
 		judge(t, "C02", sc, checkC02(sc))
 	})
